@@ -928,7 +928,8 @@ static const char* end_of_printed_string(const char* src)
             escaped = (*src == '\\') ? (!escaped) : false;
         }
         if(*src == '"' && src[1] == '\\') {
-            skip_fmt_null(&src, "\"\\ \"%n");
+            if(!skip_fmt_null(&src, "\"\\ \"%n"))
+                return NULL; // bad string continuation
             cont = true;
         }
         else
